@@ -214,8 +214,16 @@ func c17R1(c *Check, validate, merge, urls *ssa.Function) {
 							// the latch is monotone within the chain: once set it stays set until the next chain starts — every
 							// value merged into it is the constant true, the constant false coming from outside the filter loop
 							// (initialisation per chain), or the latch itself; `seen = isOIDC(current)` forgets earlier filters
-							if why := latchNotMonotone(ph); why != "" {
-								latchBad = why
+							loopCarried := false
+							for _, pb := range ph.Block().Preds {
+								if ph.Block().Dominates(pb) && blockReaches(ph.Block(), pb) {
+									loopCarried = true
+								}
+							}
+							if loopCarried {
+								if why := latchNotMonotone(ph); why != "" {
+									latchBad = why
+								}
 							}
 						}
 					}
